@@ -9,6 +9,10 @@ use syltmodel::print::{print_program, Plan as SurfacePlan};
 use vcore::{compile_fs, Check, Labels, Outcome, Project, Step, Tape, Tier, Verdict};
 
 pub struct C07;
+pub const CHECK: C07 = C07;
+pub fn plan(t: Tier) -> vcore::Plan {
+    vcore::Plan::new(t.pick(20_000, 400_000), t.pick(2600, 4000))
+}
 
 #[derive(Clone, Serialize, Deserialize)]
 pub struct Case {
